@@ -181,7 +181,7 @@ uint64_t g_v;     /* ghost variable index at which coefficient-wise facts are in
 void h_le_is_constant(void){ INLE(A); LEK(11is_constantEv)(&A.e); REACH; }
 #endif
 /* unary minus (the contract the constraint layer uses): BOUNDED: at most NT = 2 terms */
-//@check id=le_neg fn=_ZNK4ikos17linear_expressionINS_8z_numberE2VNEngEv props=C20 defs=LINCST_CONCRETE unwind=6 replace=_ZSt11make_sharedIN5boost9container8flat_mapIN4crab8variableIN4ikos8z_numberE2VNEES6_St4lessIS8_EvEEJEESt10shared_ptrINSt9enable_ifIXntsr8is_arrayIT_EE5valueESE_E4typeEEDpOT0_,_ZNSt10shared_ptrIN5boost9container8flat_mapIN4crab8variableIN4ikos8z_numberE2VNEES6_St4lessIS8_EvEEEC2ERKSC_,_ZNSt10shared_ptrIN5boost9container8flat_mapIN4crab8variableIN4ikos8z_numberE2VNEES6_St4lessIS8_EvEEED2Ev
+//@check id=le_neg fn=_ZNK4ikos17linear_expressionINS_8z_numberE2VNEngEv props=C20 defs=LINCST_CONCRETE unwind=3 bounded="<=2 terms" timeout=600 first_timeout=300
 #ifdef CHECK_le_neg
 void h_le_neg(void){ INLE(A); LE r; LEK(ngEv)(&r, &A.e); REACH; }
 #endif
